@@ -93,6 +93,12 @@ class ResHost:
         # destructor exports by "<iface key>#<resource>"
         self.dtor = {m["key"].split("_", 1)[1].replace("#[dtor]", "#"): m["key"] for m in self.man if m["dir"] == "dtor"}
         self.exp_kind = {}        # rep -> "<iface>.<resource>" of every exported resource ever created
+        self.payload = {}         # payload id -> "held" | ("slot", rep) | "dead"   (drop-count observable: udrop events)
+        self.slot = {}            # rep -> payload id in its Option<T> slot, None once into_inner took it
+        self.cur_payload = None   # the payload user code is about to wrap (last mk / take)
+        self.pending_take = None  # `take:id` seen, the `[resource-rep]` of into_inner has not arrived yet
+        self.in_dtor = None       # list collecting the payload drops of the destructor call in progress
+        self.kept = []            # stash indices of payloads user code kept after into_inner
         self.exp_ifaces = {m["iface"].split("/")[1] for m in self.exports}
         self.table = {}
         self.next_h = rng.choice([1, 1, 7, 1000])
@@ -138,11 +144,18 @@ class ResHost:
         elif name.startswith("[resource-new]"):
             rep = bits[0]
             h = self.fresh_h()
-            self.trace.append(f"new {h} {rep}")
+            pid = self.cur_payload
+            self.trace.append(f"new {h} {rep} {pid}")
+            if pid is None or self.payload.get(pid) != "held":
+                self.fail("resource:new-without-payload", "resource-new although user code holds no payload to wrap", payload=pid)
+            else:
+                self.payload[pid] = ("slot", rep)
+            self.slot[rep] = pid
+            self.cur_payload = None
             if rep in self.exp_live:
                 self.fail("resource:new-on-live-rep", "resource-new called with a representation that already backs a live resource", rep=rep)
             self.table[h] = {"kind": "own", "res": ("exp", rep)}
-            self.exp_live[rep] = None
+            self.exp_live[rep] = pid
             self.exp_kind[rep] = (module[len("[export]"):].split("/")[1] + "." + name[len("[resource-new]"):],
                                   module[len("[export]"):] + "#" + name[len("[resource-new]"):])
             self.r.native.send(f"RETURN|{h}")
@@ -151,12 +164,52 @@ class ResHost:
             e = self.table.get(h)
             rep = e["res"][1] if e and e["kind"] == "own" and e["res"][0] == "exp" else 0
             self.trace.append(f"rep {h} {rep}")
+            if self.pending_take is not None and rep != 0:
+                i, self.pending_take = self.pending_take, None
+                if self.slot.get(rep) != i:
+                    self.fail("resource:into-inner-wrong-payload", "into_inner ran on a resource whose slot does not hold the payload user code expects", rep=rep, payload=i, slot=self.slot.get(rep))
+                self.slot[rep] = None
+                self.payload[i] = "held"
             if rep == 0:
                 self.fail("resource:rep-of-handle-not-owned", "resource-rep called on a handle the guest does not own (e.g. a representation pointer used as a handle index)", handle=h, function=out.get("key"), args=out.get("vals"))
             self.r.native.send(f"RETURN|{rep}")
         else:
             out.setdefault("unexpected_imports", []).append(key)
             self.r.native.send("RETURN|0")
+
+    def on_guest_event(self, text, out):
+        """EVENT lines of the batch binary: payload created (mk), into_inner about to run (take), payload Drop ran
+        (udrop), payload kept in the stash (kept)"""
+        kind, _, rest = text.partition(":")
+        if kind == "mk":
+            i = int(rest)
+            self.trace.append(f"mk {i}")
+            if i in self.payload:
+                self.fail("resource:payload-identity-reused", "the harness created two payloads with one identity", payload=i)
+            self.payload[i] = "held"
+            self.cur_payload = i
+        elif kind == "take":
+            i = int(rest)
+            self.trace.append(f"take {i}")
+            self.pending_take = i
+            self.cur_payload = i
+        elif kind == "udrop":
+            i = int(rest)
+            st = self.payload.get(i)
+            if st == "dead" or st is None:
+                self.fail("resource:payload-dropped-twice", "the Drop of a resource's Rust value ran a second time (or on a value that was never created)",
+                          payload=i, function=out.get("key"), args=out.get("vals"))
+            if self.in_dtor is not None:
+                self.in_dtor.append(i)
+                self.trace.append(f"dudrop {i}")
+            else:
+                if st not in ("held", "dead", None):
+                    self.fail("resource:payload-dropped-while-in-slot", "user-level Drop of a value that is still inside a resource", payload=i)
+                self.trace.append(f"udrop {i}")
+            self.payload[i] = "dead"
+        elif kind == "kept":
+            i, k = rest.split(":")
+            self.kept.append(int(k))
 
     def call_dtor(self, dtor_key, rep, out):
         """host calls the exported destructor (re-entrantly when triggered by a guest resource-drop)"""
@@ -165,20 +218,20 @@ class ResHost:
         if rep not in self.exp_live:
             self.fail("resource:dtor-on-dead-rep", "the host would run the destructor of an already destroyed resource", rep=rep)
             return
-        want = self.exp_live.pop(rep)
+        self.exp_live.pop(rep)
         self.exp_owned.pop(rep, None)
+        want = self.slot.pop(rep, None)      # the payload the slot still holds (None after into_inner)
+        self.in_dtor = []
         self.r.native.send(f"CALL|{key}|{rep}")
-        sub = {}
+        sub = {"key": key}
         ans = self.r.await_final(sub)
+        dropped, self.in_dtor = self.in_dtor, None
         f = ans.split("|")
-        rep_ = bc.parse_report(f[2:]) if f[0] == "ret" else {"notes": [], "errs": ["dtor call failed"]}
-        ud = [n for n in rep_["notes"] if n.startswith("user-drop:")]
-        for n in ud:
-            self.trace.append(f"udrop {n.split(':')[1]}")
-        if len(ud) != 1:
-            self.fail("resource:dtor-user-drop-count", f"the destructor export ran the user's Drop {len(ud)} times", rep=rep)
-        elif want is not None and int(ud[0].split(":")[1]) != want:
-            self.fail("resource:dtor-wrong-value", "the destructor destroyed a different Rust value than the one the resource was created with", rep=rep, want=want, got=ud[0])
+        rep_ = bc.parse_report(f[2:]) if f[0] == "ret" else {"notes": [], "errs": ["dtor call failed"], "frees": []}
+        expect = [] if want is None else [want]
+        if dropped != expect:
+            self.fail("resource:dtor-payload-drops", "the destructor export must drop exactly the payload its slot holds (nothing after into_inner took it)",
+                      rep=rep, slot=want, dropped=dropped)
         for e in rep_["errs"]:
             self.fail("allocator:" + e.split(":")[0], "allocator error inside the destructor", error=e)
         if f[0] == "ret" and sum(1 for x in rep_["frees"] if x["addr"] == rep) != 1:
@@ -196,12 +249,12 @@ class ResHost:
                     h = self.fresh_h()
                     self.table[h] = {"kind": "own", "res": ("exp", rep)}
                     self.trace.append(f"own+ {h} e:{rep}")
-                    self.expect.append(self.exp_live[rep])
+                    self.expect.append(self.slot.get(rep))
                     return f"(h {h})"
                 if exp:
                     rep = self.pick_exp_owned(atom, remove=False)
                     self.trace.append(f"use {rep}")
-                    self.expect.append(self.exp_live[rep])
+                    self.expect.append(self.slot.get(rep))
                     return f"(h {rep})"
                 obj = self.new_obj()
                 h = self.fresh_h()
@@ -305,7 +358,11 @@ class ResHost:
             return v
         return show(walk(parse(term), parse(ann)))
 
+    def seed_policy(self):
+        self.r.native.rq(f"POLICY|{self.rng.getrandbits(62)}")
+
     def export_step(self, m, force_ok=False):
+        self.seed_policy()
         self.call_k += 1
         k = self.call_k
         self.trace.append(f"call+ {k}")
@@ -359,7 +416,8 @@ class ResHost:
                 if e["res"][0] == "exp":
                     rep = e["res"][1]
                     self.exp_owned[rep] = exp
-                    self.exp_live[rep] = exp
+                    if self.slot.get(rep) != exp:
+                        self.fail("resource:value-changed", "the resource returned by the export does not hold the value the user function wrapped", rep=rep, want=exp, slot=self.slot.get(rep))
                 want_vals.append(h)
             if len(hs) != len(ret_expect):
                 self.fail("resource:value-changed", "the number of handles in the lifted result differs from what the user function returned", function=m["key"])
@@ -376,6 +434,7 @@ class ResHost:
         return o
 
     def import_step(self, m, keep=False):
+        self.seed_policy()
         self.expect = []
         vals = [bc.gen_val(self.rng, parse(a), 0, False, self.gen_handles(a, "import", "arg", 0)) for a in m["params_ann"]]
         self.expect = []
@@ -442,6 +501,13 @@ class ResHost:
             for e in (rep or {}).get("errs", []):
                 self.fail("allocator:" + e.split(":")[0], "allocator error during a call in a resource world", function=m["key"], error=e)
 
+    def unkeep_step(self):
+        """user code drops a payload it kept after into_inner"""
+        if not self.kept: return
+        k = self.kept.pop(self.rng.randrange(len(self.kept)))
+        self.r.native.send(f"UNSTASH|{k}")
+        self.r.await_final({})
+
     def unstash_step(self):
         if not self.stashed: return
         idx, hs = self.stashed.pop(self.rng.randrange(len(self.stashed)))
@@ -469,8 +535,10 @@ class ResHost:
                     self.export_step(self.rng.choice(free_exports))
                 elif x < 0.85:
                     self.import_step(self.rng.choice(self.imports), keep=self.rng.random() < 0.3)
-                elif x < 0.93:
+                elif x < 0.90:
                     self.unstash_step()
+                elif x < 0.94:
+                    self.unkeep_step()
                 else:
                     self.host_drop_step()
             except Crash as e:
@@ -481,10 +549,14 @@ class ResHost:
                 return
         # wind down: the guest drops what it still holds, the host drops what it owns
         while self.stashed: self.unstash_step()
+        while self.kept: self.unkeep_step()
         while self.exp_owned: self.host_drop_step()
         self.trace.append("end")
         if self.table:
             self.fail("resource:handle-leaked", "handles remain in the guest's table after every Rust value was dropped", handles=sorted(self.table))
+        alive = sorted(i for i, st in self.payload.items() if st != "dead")
+        if alive:
+            self.fail("resource:payload-never-dropped", "Rust values of exported resources were never dropped although every handle and every kept value is gone", payloads=alive)
         if self.exp_live:
             self.fail("resource:exported-resource-never-destroyed", "exported resources were never destroyed although every handle to them is gone", reps=sorted(self.exp_live))
 
@@ -526,7 +598,7 @@ def run(c):
         c.cov["nocompile_corpus"] = {"worlds": len(nc_items), "still_failing": len(nc_dropped)}
     reqs, impl, model = [], [], []
     treqs, timpl, tmodel = [], [], []
-    kinds, nsteps, nevents = {}, 0, 0
+    kinds, nsteps, nevents, evkinds = {}, 0, 0, {}
     hostp = bc.Proc([host])
     for batch, gmap in batches:
         for m in batch.manifest:
@@ -541,8 +613,11 @@ def run(c):
                 cfg, wit = items[gmap[it]]
                 h = ResHost(c, r, it, batch.manifest, c.rng, cfg, wit)
                 r.import_handler = h.on_event
+                r.event_handler = h.on_guest_event
                 h.run(steps)
                 nsteps += h.steps; nevents += len(h.trace)
+                for ev in ("take", "mk", "udrop", "dudrop", "dtor", "own-", "lend"):
+                    evkinds[ev] = evkinds.get(ev, 0) + sum(1 for t in h.trace if t.startswith(ev + " "))
                 for a, b in h.kinds.items(): kinds[a] = kinds.get(a, 0) + b
                 for q, i_, m_ in h.corr:
                     reqs.append(q); impl.append(str(i_)); model.append(str(m_))
@@ -566,7 +641,7 @@ def run(c):
     c.compare("values-in-resource-worlds", reqs, impl, model)
     c.compare("history-accepted", treqs, timpl, tmodel, nontrivial=lambda r, o: False)
     c.cov["worlds"] = {"generated": len(items), "compiled": sum(len(g) for _, g in batches), "dropped_not_compiling": len(dropped)}
-    c.cov["histories"] = {"steps": nsteps, "trace_events": nevents, "step_kinds": kinds}
+    c.cov["histories"] = {"steps": nsteps, "trace_events": nevents, "step_kinds": kinds, "event_kinds": evkinds}
     c.cov["type_constructors_generated"] = stats
     c.cov["search"] = "host-side monitors (table discipline, scoped borrows, dtor/user-drop counts, final emptiness) and Lean replay on every history of this run"
     c.assumptions += [
